@@ -101,6 +101,23 @@ PROPS['C10'] = {
     ],
 }
 
+PROPS['C18'] = {
+    'units': ['parsers'],
+    'functions': ['infix.rs::check_infix', 'infix.rs::check_arithmetic_infix', 's_linked_list.rs::equal_escape',
+                  'parse_terms.rs::check_quotes', 'parse_terms.rs::parse_arguments', 'parse_terms.rs::make_term', 'parse_terms.rs::parse_term',
+                  'parse_goals.rs::indices_of_parentheses', 'parse_goals.rs::split_complex_term', 'parse_goals.rs::get_left_and_right',
+                  'parse_goals.rs::make_goal', 'parse_goals.rs::make_goal_no_args', 'parse_goals.rs::parse_operator_goal', 'parse_goals.rs::parse_subgoal',
+                  's_complex.rs::validate_complex', 's_complex.rs::parse_functor_terms', 's_complex.rs::parse_complex', 's_complex.rs::parse_query',
+                  'built_in_functions.rs::parse_function', 'rule.rs::index_of_neck', 'rule.rs::parse_rule',
+                  'parse_terms.rs::cq_error', 'parse_terms.rs::mt_error', 's_linked_list.rs::pll_error', 'parse_goals.rs::iop_error', 'rule.rs::pr_error'],
+    'oracles': {'*': 'c18_parsers'},
+    'not_covered': [
+        'TRUSTED, not yet under proof (external_body stubs with the contract "returns, does not panic"): parse_linked_list, make_logic_var, generate_goal and the tokenizer behind it (tokenize, group_tokens, group_and_tokens, group_or_tokens, token_tree_to_goal), make_query',
+        'termination of the mutual recursion (parse_term -> make_term -> parse_complex/parse_function/parse_linked_list -> parse_arguments -> make_term; parse_subgoal <-> parse_operator_goal): each call is on a strictly shorter text, but that measure is not machine-checked (exec_allows_no_decreases_clause); every loop inside the proved functions has a decreases clause',
+        'texts of 2^31 characters or more (bracket depths and positions are kept in i32)',
+    ],
+}
+
 PROPS['C21'] = {
     'units': ['reader'],
     'functions': ['rule_reader.rs::strip_comments', 'rule_reader.rs::separate_rules', 'rule_reader.rs::check_last_char',
